@@ -246,6 +246,34 @@ def _work_addr(task) -> core.Part:
     return p
 
 
+def _work_addr_lengths(task) -> core.Part:
+    """Addresses of every length 3..23: each group with 1, 2 or 3 digits (values 0..255), every presence pattern of
+    A, B and F; alone on a line, after another data set on the same line, and with 1..2 values."""
+    digs, = task
+    p = core.Part()
+    vals = {1: ("0", "9"), 2: ("10", "99"), 3: ("100", "255")}
+    for da in (0, 1, 2, 3):
+        for db in (0, 1, 2, 3):
+            for dc, dd, de in itertools.product((1, 2, 3), repeat=3):
+                if dc != digs:
+                    continue
+                for df in (0, 1, 3):
+                    for pick in (0, 1):
+                        g = [vals[d][pick] if d else None for d in (da, db, dc, dd, de, df)]
+                        addr = ("" if g[0] is None else g[0] + "-") + ("" if g[1] is None else g[1] + ":") + ".".join(g[2:5]) + ("" if g[5] is None else "*" + g[5])
+                        for ls in ([[(addr, [("00012.345", "kWh")])]], [[("1-0:32.7.0", [("230.1", "V")]), (addr, [("5", None)])]],
+                                   [[(addr, [("1", None), ("2", "V")])], [("1-0:1.7.0", [("0001.320", "kW")])]]):
+                            e = check_block(ls)
+                            p.add("evaluations")
+                            p.add("nontrivial")
+                            p.out(f"address_length={len(addr)}")
+                            if e:
+                                _rep(p, "address", ls, e)
+                                if p.full("address"):
+                                    return p
+    return p
+
+
 def _work_clock_ident(task) -> core.Part:
     p = core.Part()
     for yy in (0, 1, 24, 99):
@@ -365,6 +393,7 @@ def main(run: core.Run) -> int:
     run.merge(par.pmap(_work_shapes, [(i,) for i in range(4)], seed=run.seed))
     cd = KNOWN_CDE + ["9.7.0", "96.14.0", "0.2.8", "99.97.0", "24.2.1"]
     run.merge(par.pmap(_work_addr, [(cd[i::8],) for i in range(8)], seed=run.seed))
+    run.merge(par.pmap(_work_addr_lengths, [(1,), (2,), (3,)], seed=run.seed))
     run.merge(par.pmap(_work_clock_ident, [0], seed=run.seed))
     run.merge(par.pmap(_work_relations, [0], seed=run.seed))
     run.merge(par.pmap(_work_words, [(i, 8) for i in range(8)], seed=run.seed))
